@@ -296,6 +296,10 @@ pub fn f_types(thorough: bool) -> Vec<Ty> {
     out.push(enm(Some(IntRepr::U8), true, vec![tuple_variant("A", &[p(Prim::U8), p(Prim::U16)], None), tuple_variant("B", &[p(Prim::U8)], None)]));
     out.push(enm(Some(IntRepr::U16), true, vec![tuple_variant("A", &[p(Prim::U16)], None), tuple_variant("B", &[p(Prim::U16)], None)]));
     out.push(enm(Some(IntRepr::U32), true, vec![tuple_variant("A", &[p(Prim::U32), p(Prim::U32)], None), tuple_variant("B", &[leaf_p2(), p(Prim::U32)], None)]));
+    // boundary of the implicit index width: 255 / 256 variants use one byte, 257 use two
+    for n in [255usize, 256, 257] {
+        out.push(enm(None, false, (0..n).map(|i| unit_variant(&format!("V{}", i), None)).collect()));
+    }
     // 300 variants: 2 byte index
     out.push(enm(None, false, (0..300).map(|i| unit_variant(&format!("V{}", i), None)).collect()));
     out.push(enm(Some(IntRepr::U16), false, (0..300).map(|i| unit_variant(&format!("V{}", i), None)).collect()));
@@ -353,6 +357,59 @@ pub fn f_types(thorough: bool) -> Vec<Ty> {
         let mut v = named_variant("A", &[p(Prim::U8), p(Prim::U8)], None);
         v.fields[1] = versioned(v.fields[1].clone(), 1, u32::MAX);
         out.push(enm(Some(IntRepr::U8), true, vec![v, tuple_variant("B", &[p(Prim::U8)], None)]));
+    }
+    // runs of same-alignment fields of different sizes (or same size, niche / non-niche mixed):
+    // rustc may permute the interior of such a run in a repr(Rust) struct; the partial bulk
+    // write of the derived serializer ("deferred raw region") and the whole-struct packed
+    // decision must both notice
+    {
+        let a = |n: usize| Ty::Array(Box::new(p(Prim::U8)), n);
+        let align1 = [a(4), p(Prim::U8), a(2), p(Prim::Bool)];
+        let mut seqs: Vec<Vec<Ty>> = vec![];
+        for i in 0..4 {
+            for j in 0..4 {
+                for k in 0..4 {
+                    for l in 0..4 {
+                        let idx = [i, j, k, l];
+                        let distinct: std::collections::HashSet<_> = idx.iter().collect();
+                        // all permutations, plus X,u8,Y,u8-like patterns with a repeated leaf
+                        let keep = distinct.len() == 4 || (thorough && distinct.len() == 3) || (distinct.len() == 3 && j == l && i != k);
+                        if keep {
+                            seqs.push(idx.iter().map(|x| align1[*x].clone()).collect());
+                        }
+                    }
+                }
+            }
+        }
+        for (x, y) in [(p(Prim::Bool), p(Prim::U8)), (p(Prim::Char), p(Prim::U32))] {
+            for mask in 0..16u32 {
+                if mask == 0 || mask == 15 {
+                    continue;
+                }
+                seqs.push((0..4).map(|b| if mask >> b & 1 == 1 { x.clone() } else { y.clone() }).collect());
+            }
+        }
+        for fs in seqs {
+            out.push(strukt(false, Style::Named, fields_of(&fs)));
+            // with a non-packed tail, so that the struct as a whole is never packed and the
+            // partial bulk write of the run is what gets exercised
+            let mut with_tail = fs.clone();
+            with_tail.push(p(Prim::String));
+            out.push(strukt(false, Style::Named, fields_of(&with_tail)));
+        }
+    }
+    // a versioned variant inserted in the MIDDLE (not a documented evolution): at the old version
+    // the later variants keep their shifted indices, so old data must be rejected by the gate
+    for ri in [None, Some(IntRepr::U8)] {
+        for payload in [p(Prim::U32), p(Prim::String)] {
+            out.push(enm(ri, false, vec![unit_variant("Nothing", None), tuple_variant("Circle", &[payload.clone()], None)]));
+            let mut mid = unit_variant("Point", None);
+            mid.from = 1;
+            out.push(enm(ri, false, vec![unit_variant("Nothing", None), mid.clone(), tuple_variant("Circle", &[payload.clone()], None)]));
+            let mut first = unit_variant("Point", None);
+            first.from = 1;
+            out.push(enm(ri, false, vec![first, unit_variant("Nothing", None), tuple_variant("Circle", &[payload.clone()], None)]));
+        }
     }
     dedup(out)
 }
